@@ -409,7 +409,8 @@ def _mk_pixel_coord(
     sz: int,
     transform: Optional[Affine],
 ) -> xarray.DataArray:
-    data = numpy.arange(0.5, sz, dtype="float32")
+    # float64: float32 can not represent ``k + 0.5`` beyond 2**23
+    data = numpy.arange(0.5, sz, dtype="float64")
     xx = xarray.DataArray(
         data, coords={name: data}, dims=(name,), attrs={"units": "pixel"}
     )
